@@ -233,7 +233,7 @@ pub fn generate(g: &mut Gen, thorough: bool) {
         g.push(
             format!(
                 "S_C07M\t{}\t{}\t{}\t{}\t{}\t{}\t{}\t{}",
-                if abridged { 1 } else { 0 },
+                (if abridged { 1 } else { 0 }) + (if k % 3 == 2 { 2 } else { 0 }),
                 e0,
                 e1,
                 crate::wire::fbits(d[0]),
@@ -242,10 +242,19 @@ pub fn generate(g: &mut Gen, thorough: bool) {
                 crate::wire::fbits(tol),
                 data_of(&pts)
             ),
-            &format!("oracle-molodensky-{}-{}", if abridged { "abridged" } else { "full" }, if small { "small" } else { "large" }),
+            &format!("oracle-molodensky-{}-{}{}", if abridged { "abridged" } else { "full" }, if small { "small" } else { "large" }, if k % 3 == 2 { "-by-da-df" } else { "" }),
             true,
         );
         // the same definition on the model, both directions
+        if k % 12 == 2 {
+            let (l, r) = (geodesy::authoring::Ellipsoid::named(e0).unwrap(), geodesy::authoring::Ellipsoid::named(e1).unwrap());
+            use geodesy::authoring::EllipsoidBase;
+            let (da, df) = (r.semimajor_axis() - l.semimajor_axis(), r.flattening() - l.flattening());
+            let def = format!("molodensky ellps={e0} da={da} df={df} dx={} dy={} dz={}{}", d[0], d[1], d[2], if abridged { " abridged" } else { "" });
+            for dir in ["F", "I"] {
+                g.push(op_line("default", &[], &[], &def, "apply", dir, &data_of(&pts)), "model-molodensky-by-da-df", true);
+            }
+        }
         if k % 4 == 0 {
             let def = format!("molodensky ellps_0={e0} ellps_1={e1} dx={} dy={} dz={}{}", d[0], d[1], d[2], if abridged { " abridged" } else { "" });
             for dir in ["F", "I"] {
